@@ -329,8 +329,23 @@ impl Script {
         hex::encode(self.to_bytes())
     }
 
+    fn without_codeseparators(bits: &[ScriptBit]) -> Vec<ScriptBit> {
+        bits.iter()
+            .filter(|x| **x != ScriptBit::OpCode(OpCodes::OP_CODESEPARATOR))
+            .map(|x| match x {
+                // separators nested inside conditional branches are part of the serialised script as well
+                ScriptBit::If { code, pass, fail } => ScriptBit::If {
+                    code: *code,
+                    pass: Script::without_codeseparators(pass),
+                    fail: fail.as_ref().map(|f| Script::without_codeseparators(f)),
+                },
+                other => other.clone(),
+            })
+            .collect()
+    }
+
     pub fn remove_codeseparators(&mut self) {
-        self.0 = self.0.clone().into_iter().filter(|x| *x != ScriptBit::OpCode(OpCodes::OP_CODESEPARATOR)).collect();
+        self.0 = Script::without_codeseparators(&self.0);
     }
 
     pub fn from_chunks(chunks: Vec<Vec<u8>>) -> Result<Script, BSVErrors> {
